@@ -304,7 +304,20 @@ pub fn plant(s: &mut Src, base: &G) -> Planted {
             // a placeholder inside a word that something can follow
             let ph = E::Nt(s.pick(&["UPH", "_"]).to_string());
             let variant;
-            let w = match s.below(5) {
+            let w = match s.below(8) {
+                5 => {
+                    // what follows the placeholder is also reachable through a sibling alternative
+                    variant = "placeholder-in-alternative-then-literal";
+                    E::Word(vec![lit("--ph="), E::Alt(vec![lit("alt"), ph]), lit("tail")])
+                }
+                6 => {
+                    variant = "placeholder-repeated";
+                    E::Word(vec![lit("--ph="), E::Many(Box::new(ph))])
+                }
+                7 => {
+                    variant = "placeholder-last-in-one-alternative-then-literal";
+                    E::Word(vec![lit("--ph="), E::Alt(vec![lit("alt"), E::Word(vec![lit("pre"), ph])]), lit("tail")])
+                }
                 0 => {
                     variant = "placeholder-then-literal";
                     E::Word(vec![lit("--ph="), ph, lit("tail")])
